@@ -1,0 +1,80 @@
+//! Read-only hooks for the external verification harness (`/verif`).
+//!
+//! Compiled only with the `verif_hooks` cargo feature, which nothing in the
+//! crate or its tests enables. The hooks expose internal analysis results and
+//! one deterministic solver knob; they never change behaviour on their own.
+
+use crate::math::VariableType;
+use crate::parser::model_transformer::{Constraint, DomainVariable, Exp};
+use crate::transformers::VerifBoundsAnalyzer as BoundsAnalyzer;
+use indexmap::IndexMap;
+use std::cell::Cell;
+
+/// Result of the private bound-propagation pass, as the linearizer sees it.
+pub struct DerivedBounds {
+    analyzer: BoundsAnalyzer,
+}
+
+impl DerivedBounds {
+    /// Derived `(lower, upper)` per variable, in domain order.
+    pub fn variables(&self) -> IndexMap<String, (f64, f64)> {
+        self.analyzer
+            .verif_variable_bounds()
+            .iter()
+            .map(|(name, bounds)| (name.clone(), (bounds.lower, bounds.upper)))
+            .collect()
+    }
+
+    /// Whether propagation stopped at its step limit.
+    pub fn reached_iteration_limit(&self) -> bool {
+        self.analyzer.verif_reached_iteration_limit()
+    }
+
+    /// Whether propagation detected a contradiction and froze.
+    pub fn detected_infeasible(&self) -> bool {
+        self.analyzer.verif_detected_infeasible()
+    }
+
+    /// Enclosure the compiler derives for an arbitrary expression.
+    pub fn bounds_of(&self, exp: &Exp) -> (f64, f64) {
+        let bounds = self.analyzer.bounds_of(exp);
+        (bounds.lower, bounds.upper)
+    }
+
+    /// The domain the linearizer would publish for the declared variables.
+    pub fn applied_domain(
+        &self,
+        domain: &IndexMap<String, DomainVariable>,
+    ) -> IndexMap<String, VariableType> {
+        let mut domain = domain.clone();
+        self.analyzer.apply_to_domain(&mut domain);
+        domain
+            .into_iter()
+            .map(|(name, variable)| (name, *variable.get_type()))
+            .collect()
+    }
+}
+
+/// Runs the same analysis `Linearizer::linearize` runs before lowering.
+pub fn analyze_bounds(
+    domain: &IndexMap<String, DomainVariable>,
+    constraints: &[Constraint],
+) -> DerivedBounds {
+    DerivedBounds {
+        analyzer: BoundsAnalyzer::analyze(domain, constraints),
+    }
+}
+
+thread_local! {
+    static MILP_NODE_LIMIT: Cell<Option<u64>> = const { Cell::new(None) };
+}
+
+/// Sets (per thread) the branch-and-bound node limit forwarded to microlp by
+/// `solve_milp_lp_problem_with`. `None` (the default) means unlimited.
+pub fn set_milp_node_limit(limit: Option<u64>) {
+    MILP_NODE_LIMIT.with(|cell| cell.set(limit));
+}
+
+pub(crate) fn milp_node_limit() -> Option<u64> {
+    MILP_NODE_LIMIT.with(|cell| cell.get())
+}
